@@ -196,9 +196,10 @@ func (j *composeJudge) judgeDecompose(b ref.Bits, bufCap int, bufLen int) {
 		j.sh.Violate(mk(), "form", fmt.Sprintf("form=%d neg=%v", wantForm, n.Neg), fmt.Sprintf("form=%d neg=%v", form, neg), detail)
 		return
 	}
-	if cap(buf) < 16 && !bytes.Equal(full, before) {
-		j.sh.Violate(mk(), "buffer-modified", "a buffer that is too small is left untouched", fmt.Sprintf("%x", full), detail)
-		return
+	// Whether and when the caller's buffer is written is not part of the property (driver.Decimal allows the
+	// buffer to be used whenever it is large enough for the coefficient); it is recorded as evidence only.
+	if !bytes.Equal(full, before) {
+		j.sh.Cell("decompose/buffer-written")
 	}
 	if n.Class == ref.Finite {
 		N := new(big.Int).SetBytes(coef)
